@@ -60,8 +60,9 @@ def run(ctx):
                     o.violated(init, sets[0], f"motif sizes are `{txt(b.elt)}` per clique, not the clique's size")
                 else:
                     o.undecided(f"`{txt(v)}` not recognised", init, sets[0])
-            elif isinstance(v0, ast.Call) and txt(v0.func) == "set":
-                o.violated(init, sets[0], "motif sizes are not sorted: their order is arbitrary while the columns are ascending by size")
+            elif (isinstance(v0, ast.Call) and txt(v0.func) in ("set", "frozenset")) or isinstance(v0, ast.SetComp):
+                o.violated(init, sets[0], f"motif sizes `{txt(v)}` are not sorted: set iteration order is arbitrary (e.g. {{2, 8}} iterates as 8, 2) while the joint-degree columns "
+                                          "are ascending by size, so sizes and columns no longer correspond")
             else:
                 o.undecided(f"`{txt(v)}` not recognised", init, sets[0])
 
